@@ -303,44 +303,61 @@ def validateOrder (g : Flat) (order : List Nat) : Bool :=
         | some pi, some si => pi < si
         | _, _ => false
 
+/-- neither end of the edge is a (pre-existing) handoff node -/
+def Flat.hoffAdj (g : Flat) (e : FEdge) : Bool := g.isHoff e.src || g.isHoff e.dst
+
+/-- `handoff_edges` after the `continue` for edges that already touch a handoff -/
+def finalHoffEdges (g : Flat) (hoffEdges : List Nat) : List Nat :=
+  hoffEdges.filter fun eid =>
+    match g.edges.find? (fun e => e.id == eid) with
+    | some e => !(g.hoffAdj e)
+    | none => false
+
+/-- delay marks of the handoffs inserted on the flat edges `hoffEdges` -/
+def insertedDelays (g : Flat) (hoffEdges : List Nat) : List (Bool × Nat × Delay) :=
+  hoffEdges.filterMap fun eid =>
+    match g.edges.find? (fun e => e.id == eid) with
+    | some e => (g.edgeDelay e).map (fun d => (true, eid, effectiveDelay g e.dst d))
+    | none => none
+
+/-- delay marks of pre-existing handoff nodes (`handoff() -> defer_tick()`) -/
+def existingDelays (g : Flat) : List (Bool × Nat × Delay) :=
+  g.nodes.filterMap fun n =>
+    if n.isHoff then
+      match g.edges.find? (fun e => e.src == n.id) with
+      | some e => (g.edgeDelay e).map (fun d => (false, n.id, effectiveDelay g e.dst d))
+      | none => none
+    else none
+
+/-- `make_subgraphs` after the merge fixpoint + `mark_tick_boundary_handoffs` -/
+def finishPartition (g : Flat) (st : MergeSt) : Outcome :=
+  match st.bad with
+  | some msg => .panic msg
+  | none =>
+    let hoffEdges := finalHoffEdges g st.hoffEdges
+    let sgs := (st.sm.subgraphs).filter (fun ns => !ns.isEmpty && !(ns.any g.isHoff))
+    let idxd := sgs.zipIdx.map (fun p => (p.2, p.1))
+    let sgLoop := idxd.map (fun p => (p.1, match p.2 with | n :: _ => g.nodeLoop n | [] => none))
+    match makeLoopsContiguous g sgLoop with
+    | none => .panic "make-loops-contiguous-expect"
+    | some order =>
+      let finalSgs := order.filterMap (fun i => aget idxd i)
+      if !validateOrder g finalSgs.flatten then .panic "toposort-invalid-after-make-loops-contiguous" else
+      .ok { subgraphs := finalSgs, hoffEdges := hoffEdges,
+            delays := insertedDelays g hoffEdges ++ existingDelays g, colors := st.colors, rep := st.sm.rep }
+
+/-- initial state of the merge fixpoint -/
+def mergeInit (g : Flat) (sm : SM) : MergeSt :=
+  { sm := sm, colors := g.nodeIds.filterMap (fun n => (g.nodeColor n).map (fun c => (n, c))),
+    hoffEdges := sortDedup (g.edges.map (·.id)), progress := true, bad := none }
+
 /-- `partition_graph`, parametrised by the topological sort used in `SubgraphMerge::new` -/
 def partitionWith (ts : TopoSortFn) (g : Flat) : Outcome :=
   if g.refsConflict then .panic "conflicted-refs" else
-  let pairs := g.depPairs
-  match SM.new ts g.nodeIds (Flat.predsOf pairs) g.enemyPairs with
+  match SM.new ts g.nodeIds (Flat.predsOf g.depPairs) g.enemyPairs with
   | .cycle c => .err c
   | .panic msg => .panic msg
-  | .ok sm =>
-    let colors0 := g.nodeIds.filterMap (fun n => (g.nodeColor n).map (fun c => (n, c)))
-    let st0 : MergeSt := { sm := sm, colors := colors0, hoffEdges := g.edges.map (·.id) |> sortDedup,
-                           progress := true, bad := none }
-    let st := mergeLoop g (g.nodes.length + 2) st0
-    match st.bad with
-    | some msg => .panic msg
-    | none =>
-      let hoffEdges := st.hoffEdges.filter fun eid =>
-        match g.edges.find? (fun e => e.id == eid) with
-        | some e => !(g.isHoff e.src || g.isHoff e.dst)
-        | none => false
-      let sgs := (st.sm.subgraphs).filter (fun ns => !ns.isEmpty && !(ns.any g.isHoff))
-      let idxd := sgs.zipIdx.map (fun p => (p.2, p.1))
-      let sgLoop := idxd.map (fun p => (p.1, match p.2 with | n :: _ => g.nodeLoop n | [] => none))
-      match makeLoopsContiguous g sgLoop with
-      | none => .panic "make-loops-contiguous-expect"
-      | some order =>
-        let finalSgs := order.filterMap (fun i => aget idxd i)
-        if !validateOrder g finalSgs.flatten then .panic "toposort-invalid-after-make-loops-contiguous" else
-        let inserted := hoffEdges.filterMap fun eid =>
-          match g.edges.find? (fun e => e.id == eid) with
-          | some e => (g.edgeDelay e).map (fun d => (true, eid, effectiveDelay g e.dst d))
-          | none => none
-        let existing := g.nodes.filterMap fun n =>
-          if n.isHoff then
-            match g.edges.find? (fun e => e.src == n.id) with
-            | some e => (g.edgeDelay e).map (fun d => (false, n.id, effectiveDelay g e.dst d))
-            | none => none
-          else none
-        .ok { subgraphs := finalSgs, hoffEdges := hoffEdges, delays := inserted ++ existing, colors := st.colors, rep := st.sm.rep }
+  | .ok sm => finishPartition g (mergeLoop g (g.nodes.length + 2) (mergeInit g sm))
 
 /-- the partitioner with the re-transcribed `topo_sort` -/
 def partition (g : Flat) : Outcome := partitionWith topoSort g
